@@ -513,15 +513,11 @@ func (c *EvalCtx) selector(e *ast.SelectorExpr) tv {
 	// package-qualified?
 	if id, ok := e.X.(*ast.Ident); ok {
 		if _, shadow := c.vars[id.Name]; !shadow {
-			if pk := c.pkg(); pk != nil {
-				for _, imp := range pk.Imports() {
-					if imp.Name() == id.Name || c.importAlias(id.Name) == imp.Path() {
-						if obj := imp.Scope().Lookup(e.Sel.Name); obj != nil {
-							return c.object(obj)
-						}
-						c.errf("package %s has no member %s", id.Name, e.Sel.Name)
-					}
+			if imp := c.ex.resolveImport(c.pkgPath, id.Name); imp != nil {
+				if obj := imp.Scope().Lookup(e.Sel.Name); obj != nil {
+					return c.object(obj)
 				}
+				c.errf("package %s has no member %s", id.Name, e.Sel.Name)
 			}
 		}
 	}
@@ -543,6 +539,39 @@ func (c *EvalCtx) selector(e *ast.SelectorExpr) tv {
 		c.errf("cannot select %s from untyped value", e.Sel.Name)
 	}
 	return c.field(x, e.Sel.Name)
+}
+
+// resolveImport finds the package that the local name denotes in the source files of pkgPath
+// (an explicit alias wins; otherwise the imported package's own name).
+func (ex *Exec) resolveImport(pkgPath, local string) *types.Package {
+	pp := ex.P.PPkg[pkgPath]
+	if pp == nil {
+		return nil
+	}
+	byPath := map[string]*types.Package{}
+	for _, imp := range pp.Types.Imports() {
+		byPath[imp.Path()] = imp
+	}
+	var fallback *types.Package
+	for _, f := range pp.Syntax {
+		for _, im := range f.Imports {
+			path, _ := strconv.Unquote(im.Path.Value)
+			ip := byPath[path]
+			if ip == nil {
+				continue
+			}
+			if im.Name != nil {
+				if im.Name.Name == local {
+					return ip
+				}
+				continue
+			}
+			if ip.Name() == local {
+				fallback = ip
+			}
+		}
+	}
+	return fallback
 }
 
 func (c *EvalCtx) importAlias(name string) string {
@@ -696,13 +725,9 @@ func (c *EvalCtx) typeExpr(e ast.Expr) types.Type {
 		}
 	case *ast.SelectorExpr:
 		if id, ok := e.X.(*ast.Ident); ok {
-			if pk := c.pkg(); pk != nil {
-				for _, imp := range pk.Imports() {
-					if imp.Name() == id.Name || c.importAlias(id.Name) == imp.Path() {
-						if o, ok := imp.Scope().Lookup(e.Sel.Name).(*types.TypeName); ok {
-							return o.Type()
-						}
-					}
+			if imp := c.ex.resolveImport(c.pkgPath, id.Name); imp != nil {
+				if o, ok := imp.Scope().Lookup(e.Sel.Name).(*types.TypeName); ok {
+					return o.Type()
 				}
 			}
 		}
@@ -832,13 +857,9 @@ func (c *EvalCtx) call(e *ast.CallExpr) tv {
 		// pkg.Func(...)
 		if id, ok := sel.X.(*ast.Ident); ok {
 			if _, shadow := c.vars[id.Name]; !shadow {
-				if pk := c.pkg(); pk != nil {
-					for _, imp := range pk.Imports() {
-						if imp.Name() == id.Name || c.importAlias(id.Name) == imp.Path() {
-							if fo, ok := imp.Scope().Lookup(sel.Sel.Name).(*types.Func); ok {
-								return c.goCall(ex.P.SSA.FuncValue(fo), nil, e.Args)
-							}
-						}
+				if imp := ex.resolveImport(c.pkgPath, id.Name); imp != nil {
+					if fo, ok := imp.Scope().Lookup(sel.Sel.Name).(*types.Func); ok {
+						return c.goCall(ex.P.SSA.FuncValue(fo), nil, e.Args)
 					}
 				}
 			}
@@ -1041,11 +1062,9 @@ func (ex *Exec) specGoType(name, pkgPath string) types.Type {
 		pp := ex.P.PPkg[pkgPath]
 		if pp != nil {
 			if i := strings.Index(name, "."); i >= 0 {
-				for _, imp := range pp.Types.Imports() {
-					if imp.Name() == name[:i] {
-						if o, ok := imp.Scope().Lookup(name[i+1:]).(*types.TypeName); ok {
-							t = o.Type()
-						}
+				if imp := ex.resolveImport(pkgPath, name[:i]); imp != nil {
+					if o, ok := imp.Scope().Lookup(name[i+1:]).(*types.TypeName); ok {
+						t = o.Type()
 					}
 				}
 			} else if o, ok := pp.Types.Scope().Lookup(name).(*types.TypeName); ok {
